@@ -410,6 +410,19 @@ def eq_ring(n=8, phase=-180.0 + 10.0):
     return Mesh("eqring", pts, faces, False, tags=("antimeridian",))
 
 
+def quad_patch(name, n=4, cell=0.002, lon0=11.0, lat0=47.0):
+    """n x n patch of lon/lat-aligned quads with cells of `cell` degrees (kilometre-scale for 0.002..0.01): anything the
+    library compares against an absolute tolerance (1e-8) shrinks below it on such a mesh."""
+    pts = [lonlat_to_xyz(lon0 + cell * i, lat0 + cell * j) for j in range(n + 1) for i in range(n + 1)]
+    faces = []
+    for j in range(n):
+        for i in range(n):
+            a = j * (n + 1) + i
+            faces.append((a, a + 1, a + n + 2, a + n + 1))
+    faces = [orient_ccw(pts, f) for f in faces]
+    return Mesh(name, pts, faces, False)
+
+
 _CACHE = {}
 _EXTRA = {}
 
@@ -417,7 +430,7 @@ _EXTRA = {}
 def extra():
     """meshes used by later checks only (not part of the C02/C03 catalogue)."""
     if not _EXTRA:
-        for m in [sizes38(), cubesphere(3), single(4), single(6), single(8), am3(), eq_ring()]:
+        for m in [sizes38(), cubesphere(3), single(4), single(6), single(8), am3(), eq_ring(), quad_patch("finequads"), quad_patch("finequads-am", lon0=179.997, lat0=-20.0), quad_patch("finequads-pole", n=3, cell=0.004, lon0=60.0, lat0=89.98)]:
             _EXTRA[m.name] = m
     return _EXTRA
 
